@@ -276,6 +276,72 @@ _PANIC_CALLS = {"unwrap", "expect", "unwrap_err", "expect_err", "unwrap_unchecke
                 "unreachable", "unimplemented", "todo", "borrow_mut", "borrow", "split_at", "split_at_mut", "copy_from_slice", "swap_remove", "remove"}
 
 
+def _unwrap_guarded(b, blk, t):
+    """Is the Option / Result that this unwrap / expect consumes known to be Some / Ok on EVERY path that reaches the call - because
+    the same value's discriminant (or is_some / is_ok / is_none / is_err) was tested on the path and the bad variant left through
+    another branch?  Such an unwrap cannot panic; it is a way of spelling the match arm."""
+    if not t["args"]:
+        return False
+    pl = mirq.operand_place(t["args"][0]["op"])
+    if pl is None or pl["p"]:
+        return False
+    # trace the operand back through moves / `ok()` / `as_ref()` ... to the tested local(s)
+    bases = {pl["l"]}
+    changed = True
+    while changed:
+        changed = False
+        for _, bl, s in assigns(b):
+            if s["place"]["l"] in bases and not s["place"]["p"]:
+                rv = s["rv"]
+                src = None
+                if rv["k"] == "use":
+                    src = mirq.operand_place(rv["op"])
+                elif rv["k"] in ("ref", "copyderef"):
+                    src = rv["place"]
+                if src is not None and not [e for e in src["p"] if e != "*"] and src["l"] not in bases:
+                    bases.add(src["l"]); changed = True
+        for _, bl, t2, f2 in mirq.calls(b):
+            if f2 is not None and f2["name"] in ("ok", "as_ref", "as_mut", "as_deref", "err") and f2.get("krate") != "chumsky" \
+                    and t2["dest"]["l"] in bases and not t2["dest"]["p"] and t2["args"]:
+                src = mirq.operand_place(t2["args"][0]["op"])
+                if src is not None and not [e for e in src["p"] if e != "*"] and src["l"] not in bases:
+                    bases.add(src["l"]); changed = True
+    good = {"Some", "Ok"}
+    try:
+        ps = mirq.paths(b, limit=4000, stop=lambda x: x == blk)
+    except RuntimeError:
+        return False
+    seen_any = False
+    for path in ps:
+        if not path or path[-1][0] != blk:
+            continue
+        seen_any = True
+        ok = False
+        for bb, idx in path:
+            bl = b["blocks"][bb]
+            tt = bl["term"]
+            if tt["k"] != "switch" or idx in (None, "loop"):
+                continue
+            op = mirq.operand_place(tt["op"])
+            if op is None:
+                continue
+            for s in bl["stmts"]:
+                if s["k"] == "assign" and s["place"]["l"] == op["l"] and s["rv"]["k"] == "discr" and s["rv"]["place"]["l"] in bases:
+                    names = dict((int(v), n) for v, n in s["rv"].get("variants") or [])
+                    ch = mirq.switch_choice(b, bb, idx)
+                    if ch == "otherwise":
+                        listed = {int(v) for v, _ in tt["targets"]}
+                        rest = [n for v, n in names.items() if v not in listed]
+                        chosen = rest[0] if len(rest) == 1 else None
+                    else:
+                        chosen = names.get(int(ch))
+                    if chosen in good:
+                        ok = True
+        if not ok:
+            return False
+    return seen_any
+
+
 def panic_sites(b):
     """Operations of body `b` that can panic by themselves: calls into core::panicking, Option/Result unwrap / expect (and the
     unchecked forms, UB instead of a panic), RefCell borrows, Index / IndexMut with something other than `..`, a few slice / Vec
@@ -302,6 +368,8 @@ def panic_sites(b):
             if nm in ("borrow", "borrow_mut") and "RefCell" not in (f.get("self_ty") or p):
                 continue
             if nm in ("remove",) and "Vec" not in (f.get("self_ty") or ""):
+                continue
+            if nm in ("unwrap", "expect") and _unwrap_guarded(b, i, t):
                 continue
             out.append(nm)
         elif nm in ("index", "index_mut") and f.get("krate") in ("core", "std", "alloc"):
